@@ -1658,7 +1658,7 @@ func runC14(c *Ctx) int {
 		return c14Replay(c, run, dir)
 	}
 
-	nRandom := c.Pick(20000, 300000)
+	nRandom := c.Pick(20000, 1000000)
 	seeds := c.Rand("cases")
 	cases := c14Grid()
 	nGrid := len(cases)
